@@ -102,3 +102,8 @@ def main_entry(prop_module):
     except core.Infra as e:
         core.log("INFRASTRUCTURE FAILURE:", e)
         return 2
+    except Exception:      # a bug in the machinery is never reported as a violation
+        import traceback
+        traceback.print_exc()
+        core.log("INFRASTRUCTURE FAILURE: unexpected exception in the check machinery")
+        return 2
